@@ -67,12 +67,45 @@ def generic(rnd, i, back=None):
     # a FORWARD field named like a backward one, without an inverse: going back the name is still inherited, not overridden
     free = [n for n in BACK if n != 'x' and n not in outs and (d['inh'] == 'all' or n not in d['inh'])]
     d['fwd_extra'] = [n for n in free if rnd.random() < 0.4]
+    # the same layer may be written as a class body, with the positional-only form for an inverse's own field
+    d['class_syntax'] = rnd.random() < 0.3 and (d['inh'] == 'all' or not set(d['inh']) & ({'x'} if d['fwd'] in ('def', 'def_p') else set()))
     return d
+
+
+def make_class(d):
+    """the same layer written as a class body; an @inverse whose first argument is its own field uses the positional-only form `def y(value, /, ...)`"""
+    i = d['id']
+    fns = {}
+    lines = [f'class L{i}(Transform):', f'    __inherit__ = {True if d["inh"] == "all" else tuple(d["inh"])!r}']
+    if d['fwd'] == 'def_p' or any(x['param'] for x in d['defs']):
+        fns[f'P{i}'] = named(f'P{i}')
+        lines += ['    def _p(x):', f'        return FN["P{i}"](x)']
+    if d['fwd'] in ('def_p', 'def'):
+        fns[f'F{i}'] = named(f'F{i}')
+        a = 'x, _p' if d['fwd'] == 'def_p' else 'x'
+        lines += [f'    def x({a}):', f'        return FN["F{i}"]({a})']
+    for n in d.get('fwd_extra', []):
+        fns[f'G{n}{i}'] = named(f'G{n}{i}')
+        lines += [f'    def {n}(x):', f'        return FN["G{n}{i}"](x)']
+    for x in d['defs']:
+        fns[x['fn']] = named(x['fn'])
+        rest = list(x['args'][1:]) + (['_p'] if x['param'] else [])
+        if x['args'][0] == x['out']:
+            sig = ', '.join(['value', '/'] + rest)
+            call = ', '.join(['value'] + rest)
+        else:
+            sig = call = ', '.join(list(x['args']) + (['_p'] if x['param'] else []))
+        lines += ['    @inverse', f'    def {x["out"]}({sig}):', f'        return FN["{x["fn"]}"]({call})']
+    ns = {'Transform': Transform, 'inverse': inverse, 'FN': fns}
+    exec('\n'.join(lines) + '\n', ns)
+    return ns[f'L{i}']()
 
 
 def make(d):
     if d['cache']:
         return CacheToRam()
+    if d.get('class_syntax'):
+        return make_class(d)
     i = d['id']
     items = []
     if d['fwd'] == 'def_p' or any(x['param'] for x in d['defs']):
